@@ -15,6 +15,9 @@ func init() {
 }
 
 func checkC07(c *Ctx, r *Report) {
+	// an embedded struct is composed into its parent (allOf) because it is embedded - nothing else
+	// (its tag, its name) takes part in that decision, in either emitter or in the shared helper
+	defer checkEmbeddingDecision(c, r, "C07.c")
 	// ... and none is taken out again: the lists of values, fields and models that were built element
 	// by element are not compacted or filtered afterwards (the spec post-processing only re-orders)
 	defer ruleNoCompaction(c, r, "C07.c", "generator/swagen", "core/metadata", "core/visitors")
@@ -741,4 +744,10 @@ func jsonVisibilityGaps(a *Atoms) []string {
 		gaps = append(gaps, "the json tag being \"-\"")
 	}
 	return gaps
+}
+
+func checkEmbeddingDecision(c *Ctx, r *Report, clause string) {
+	ruleBranchConsultsOnly(c, r, clause, "definitions.FieldMetadata.IsEmbedded", []string{"definitions.FieldMetadata.Type", "definitions.StructMetadata.Fields"}, 3,
+		"an embedded field is an allOf member of its parent's schema exactly when the Go declaration embeds it (the embedded `error` aside); both emitters and HasEmbeddedField decide alike",
+		"generator/swagen")
 }
